@@ -322,6 +322,15 @@ func applyProfile(c *RunConfig, ch *simrt.Chooser, p string) {
 		c.Clients = rangeInt(ch, 2, 4)
 		c.Faults = map[string]int{"partition": 2, "heal": 2, "stall": 1}
 		c.StoreFlavour = pick(ch, FlavourPlain, FlavourMonotonic)
+	case "C10s2":
+		// the real server of the replication sweep: small snapshot threshold and trailing logs so
+		// that it snapshots and compacts inside the plan; every store flavour
+		c.SnapshotThreshold = uint64(pick(ch, 2, 3, 5, 8))
+		c.TrailingLogs = uint64(pick(ch, 0, 1, 2, 5))
+		c.StoreFlavour = pick(ch, FlavourPlain, FlavourMonotonic, FlavourCommitTracking, FlavourCommitTracking)
+		c.RestoreCommittedLogs = ch.Choose(simrt.SCfg, 2) == 0
+		c.SnapshotInterval = time.Duration(pick(ch, 10, 30, 100)) * time.Millisecond
+		fallthrough
 	case "C06s2":
 		c.Voters, c.NonVoters, c.Spares, c.Clients = 3, 0, 0, 0
 		c.Faults = map[string]int{}
@@ -333,7 +342,9 @@ func applyProfile(c *RunConfig, ch *simrt.Chooser, p string) {
 		c.MinLatency, c.Jitter = 100*time.Microsecond, 0
 		c.HeartbeatTimeout, c.ElectionTimeout, c.LeaderLeaseTimeout = 10*time.Second, 10*time.Second, 10*time.Second
 		c.TransportTimeout = 200 * time.Millisecond
-		c.SnapshotInterval = time.Hour
+		if p != "C10s2" {
+			c.SnapshotInterval = time.Hour
+		}
 	case "C17b":
 		// a calm cluster whose leader usually survives to the end of the run, so that a future
 		// lost inside a short disturbance is still outstanding when the run is judged: the only
